@@ -108,13 +108,21 @@ def one(rep, nat, mask, pat, paths):
     ITER = next(n for n in core.FNS if n.endswith("::into_element_iter") and "FileMetaTable" in core.FNS[n].ptext)
     box = {}
 
+    counter = {"k": 0}
+
     def text(prefix, n, pc):
+        counter["k"] += 1
+        blank_ok = (counter["k"] + mask + sum(pat)) % 3 == 0          # every third string of the instance may end in a pad character
         bs = [BitVec("%s_%d" % (prefix, k), 8) for k in range(n)]
-        for b in bs: pc.append(And(UGE(b, 0x30), ULE(b, 0x7A)))
+        # the last character may be any character of the default repertoire, NUL and space (the pad characters) included; the others are
+        # non-blank (and only every third string gets such a last character: a few blank-or-not forks instead of 2^9 if the code starts to trim values)
+        for b in bs[:-1]: pc.append(And(UGE(b, 0x30), ULE(b, 0x7A)))
+        for b in bs[-1:]: pc.append(ULE(b, 0x7E) if blank_ok else And(UGE(b, 0x30), ULE(b, 0x7A)))
         return core.Str(bs)
 
     def build1(ctx):
         pc = ctx.pc
+        counter["k"] = 0
         fields = [BitVec("stale_len", 32), core.Struct([0, 1])]
         for k, nm in enumerate(("class", "inst", "ts", "impl")):
             fields.append(text(nm, pat[k], pc))
@@ -131,25 +139,35 @@ def one(rep, nat, mask, pat, paths):
             x = core.iter_next(it, ctx)
             if x is None: break
             elems.append(d(x))
-        box["elems"] = elems
+        box.setdefault("paths", []).append((table.f[0], elems, list(ctx.pc)))
         return BoolVal(False)
 
     res1 = core.explore(build1)
-    rec = box.get("recorded")
-    rec = simplify(rec) if not isinstance(rec, int) else rec
-    if not isinstance(rec, int):
-        if not is_bv_value(rec): raise core.NotEncodable("recorded group length is not determined by the shape of the table")
-        rec = rec.as_long()
-    elems = box["elems"]
-    # ---- phase 2: dicom-parser + dicom-encoding
+    # ---- phase 2: dicom-parser + dicom-encoding, once per path of phase 1 (a single path unless the code branches on characters)
     core.load([paths["dicom-parser"], paths["dicom-encoding"], paths["dicom-core"]])
     c04.IMPL.clear(); c04.find_impls()
     c04.ENC["kind"] = "ele"
     core.EXTRA_CONTRACTS[:] = [c04.contracts]
     EPE = next(n for n in core.FNS if n.endswith("::encode_primitive_element"))
     box2 = {}
+    res2, rec, elems = None, None, []
+    for (rec_, elems_, pc1) in box.get("paths", []):
+        rec_ = simplify(rec_) if not isinstance(rec_, int) else rec_
+        if not isinstance(rec_, int):
+            if not is_bv_value(rec_): raise core.NotEncodable("recorded group length is not determined by the shape of the table")
+            rec_ = rec_.as_long()
+        rec, elems = rec_, elems_
+        r2 = explore2(EPE, rec, elems, pc1, box2)
+        rep.nontrivial += r2["paths"]
+        res2 = r2
+        if r2["violation"]: break
+    rep.nontrivial += res1["paths"]
+    finish(rep, nat, name, mask, pat, res2, box2, rec, elems)
 
+
+def explore2(EPE, rec, elems, pc1, box2):
     def build2(ctx):
+        ctx.pc.extend(pc1)
         sink = c04.Sink([])
         printer = core.Struct([sink, core.Struct([]), core.Enum("Default", []), BitVecVal(0, 64), c04.Sink([])])
         for el in elems:
@@ -173,22 +191,33 @@ def one(rep, nat, mask, pat, paths):
                 if stored != len(b) - 12: problems.append("group length %d, but %d bytes follow the group length element" % (stored, len(b) - 12))
         box2["problems"] = problems
         return BoolVal(bool(problems))
+    return core.explore(build2)
 
-    res2 = core.explore(build2)
-    rep.nontrivial += res1["paths"] + res2["paths"]
-    real = nat.ask("meta_len", mask, *pat)
+
+def finish(rep, nat, name, mask, pat, res2, box2, rec, elems):
+    model = res2["violation"][0] if res2 and res2["violation"] else None
+
+    def field_hex(prefix, n):
+        if n == 0: return "-"
+        out = []
+        for k in range(n):
+            v = 0x41 + k if model is None else model.eval(BitVec("%s_%d" % (prefix, k), 8), model_completion=True).as_long()
+            out.append("%02x" % v)
+        return "".join(out)
+    words = [field_hex(nm, pat[k]) for k, nm in enumerate(("class", "inst", "ts", "impl"))] + [field_hex("opt%d" % k, pat[4 + k]) for k in range(5)] + [str(pat[9])]
+    real = nat.ask("meta_len", mask, *words)
     parts = real.split()
     real_bad = not (len(parts) == 3 and parts[0] == "L" and parts[1] == parts[2])
-    if res2["violation"]:
-        rp = rep.replay_file("c09_%d_%s" % (mask, "_".join(map(str, pat))), "// engine=M case=c09\n// native: meta_len %d %s   (presence mask, field lengths)\n// encoding: %s\n// real (recorded, bytes that follow): %s\n" % (mask, " ".join(map(str, pat)), box2.get("problems"), real))
+    if res2 and res2["violation"]:
+        rp = rep.replay_file("c09_%d_%s" % (mask, "_".join(map(str, pat))), "// engine=M case=c09\n// native: meta_len %d %s   (presence mask, text of each string field in hex, private information length)\n// encoding: %s\n// real (recorded, bytes that follow): %s\n" % (mask, " ".join(words), box2.get("problems"), real))
         if real_bad:
-            rep.violations.append(("file meta group length: %s (real: %s) for optional attributes mask %d, lengths %s" % (box2.get("problems"), real, mask, list(pat)), rp))
+            rep.violations.append(("file meta group length: %s (real: %s) for optional attributes mask %d, field texts (hex) %s" % (box2.get("problems"), real, mask, words), rp))
             rep.obligation(name, "violated", {"native": real})
         else:
             rep.inconclusive.append("C09 counterexample does not reproduce natively: %s vs %s" % (box2.get("problems"), real))
             rep.obligation(name, "inconclusive", {"native": real})
     else:
         rep.validated += 1
-        if real_bad or int(parts[1]) != rec:
-            rep.inconclusive.append("native file meta group (%s) disagrees with the encoding (recorded %d) for mask %d lengths %s" % (real, rec, mask, list(pat)))
+        if real_bad or rec is None or int(parts[1]) != rec:
+            rep.inconclusive.append("native file meta group (%s) disagrees with the encoding (recorded %s) for mask %d lengths %s" % (real, rec, mask, list(pat)))
         rep.obligation(name, "holds", {"recorded": rec, "elements": len(elems)})
